@@ -129,6 +129,7 @@ def _run_job(args):
         _facade.USED_STUBS.clear()
         _facade._ACTIVE[0] = False
         _facade.EXACT_SQRT2[0] = False
+        _facade.EXACT_SQRT_OF.clear()
         from . import sym as _sym
 
         _sym.INPLACE_PROMOTIONS[0] = 0
